@@ -40,7 +40,7 @@ struct Member {
     family: Family,
 }
 
-fn names(prm: &Params) -> BTreeMap<u32, String> {
+fn names(prm: &Params) -> BTreeMap<u64, String> {
     let mut m = BTreeMap::new();
     for (i, g) in prm.gi_base_iter().enumerate() {
         if let Some(id) = g.single_id() {
@@ -293,7 +293,7 @@ fn check_members(ctx: &Ctx, rep: &mut Report, id: usize, mems: &[Member]) {
         // name the differing coordinates
         let nm = names(&mems.iter().max_by_key(|m| m.cfg.n * m.cfg.cap).unwrap().st.generators);
         let mut diff = vec![];
-        let mut ids: Vec<u32> = call.result.0.keys().chain(expected.0.keys()).copied().collect();
+        let mut ids: Vec<u64> = call.result.0.keys().chain(expected.0.keys()).copied().collect();
         ids.sort_unstable();
         ids.dedup();
         for i in ids {
